@@ -151,6 +151,12 @@ def line_of(text, pos):
 
 def classify_token(tok):
     """coarse class of an alphabet token, for violation signatures"""
+    if tok.startswith('@'):
+        return 'big'
+    if tok.endswith(('_in', '_end')):
+        return 'line-boundary-char'
+    if tok in ('nul', 'astral'):
+        return tok
     return {'tmp': 'tmpdir', 'cwd': 'cwd', 'user': 'user', 'host': 'host',
             'home': 'home', 'today': 'date-now', 'now': 'date-now',
             'euro': 'date-now', 'usdate': 'date-now',
@@ -159,7 +165,7 @@ def classify_token(tok):
             'time': 'time'}.get(tok, 'text')
 
 
-_PRIORITY = ['tmpdir', 'cwd', 'home', 'host', 'user', 'date-now', 'time',
+_PRIORITY = ['big', 'line-boundary-char', 'nul', 'astral', 'tmpdir', 'cwd', 'home', 'host', 'user', 'date-now', 'time',
              'numtriple']
 
 
